@@ -19,13 +19,15 @@ NoFault == [kind |-> "none", at |-> 0]
 XMkOp(op, r, qq, c, d) == [op |-> op, r |-> r, q |-> qq, c |-> c, d |-> d]
 Lift(o) == XMkOp(o.op, o.r, o.q, o.c, NoDgram)
 
-\* datagrams of the UDP leg: the answer, the truncated answer, a truncated
-\* answer with another ID, garbage
+\* datagrams of the UDP leg: answers of every rcode class (NOERROR, SERVFAIL
+\* 2, NXDOMAIN 3, REFUSED 5 with the question; a header-only error), each
+\* with and without TC; a truncated answer with another ID; garbage
 XDgrams(x) ==
-  {[kind |-> "msg", f |-> Msg(x.d.att, TRUE, x.d.q, 0, TRUE, FALSE, -1)],
-   [kind |-> "msg", f |-> Msg(x.d.att, TRUE, x.d.q, 0, TRUE, TRUE, -1)],
-   [kind |-> "msg", f |-> Msg(99, TRUE, x.d.q, 0, TRUE, TRUE, -1)],
-   [kind |-> "short", f |-> NoDgram.f]}
+       {[kind |-> "msg", f |-> Msg(x.d.att, TRUE, x.d.q, rc, rc = 0, tc, -1)] :
+           rc \in {0, 2, 3, 5}, tc \in BOOLEAN}
+  \cup {[kind |-> "msg", f |-> Msg(x.d.att, TRUE, NoQ, 2, FALSE, tc, -1)] : tc \in BOOLEAN}
+  \cup {[kind |-> "msg", f |-> Msg(99, TRUE, x.d.q, 0, TRUE, TRUE, -1)],
+        [kind |-> "short", f |-> NoDgram.f]}
 
 XOpsOf(x) ==
   CASE x.ph = "idle" -> {XMkOp("submit", 1, 1, 0, NoDgram)}
@@ -53,7 +55,8 @@ XProj(x) == [udp |-> x.d.sent, nconnect |-> x.m.nconnect,
              written |-> Written(x.m.conns, {1}),
              done |-> SeqOf([k \in 1..Len(x.done) |->
                                [ok |-> x.done[k].ok, via |-> x.done[k].via,
-                                tc |-> x.done[k].tc, t |-> x.done[k].t]], Len(x.done))]
+                                tc |-> x.done[k].tc, rcode |-> x.done[k].rcode,
+                                t |-> x.done[k].t]], Len(x.done))]
 
 Ops  == IF Mode = "multi" THEN {Lift(o) : o \in MOpsOf(st)} ELSE XOpsOf(st)
 App(o) == IF Mode = "multi" THEN MApply(st, MMkOp(o.op, o.r, o.q, o.c)) ELSE XApply(st, o)
